@@ -140,6 +140,53 @@ func validatedBy(c *Ctx, v ssa.Value, at ssa.Instruction) (bool, string) {
 			allRefs = append(allRefs, *rr...)
 		}
 	}
+	// a library search for an offending character: strings.IndexFunc(v, pred) < 0 (or
+	// !strings.ContainsFunc(v, pred)) on the way to `at`, where pred is false for digits only
+	for _, ref := range allRefs {
+		call, ok := ref.(*ssa.Call)
+		if !ok || call.Parent() != fn || call.Common().StaticCallee() == nil || len(call.Common().Args) != 2 {
+			continue
+		}
+		full := calleeFull(call)
+		if full != "strings.IndexFunc" && full != "strings.ContainsFunc" {
+			continue
+		}
+		var pred *ssa.Function
+		pv := call.Common().Args[1]
+		if ct, ok := pv.(*ssa.ChangeType); ok {
+			pv = ct.X
+		}
+		switch x := pv.(type) {
+		case *ssa.Function:
+			pred = x
+		case *ssa.MakeClosure:
+			if len(x.Bindings) == 0 {
+				pred = x.Fn.(*ssa.Function)
+			}
+		}
+		if pred == nil || pred.Blocks == nil || len(pred.Params) != 1 || !call.Block().Dominates(at.Block()) {
+			continue
+		}
+		np := NewNormer(c.P)
+		np.BindParams(pred, "r")
+		offending := cFalse
+		for _, ret := range returnsOf(pred) {
+			offending = cOr(offending, cAnd(np.ReachCond(pred, nil, ret.Block()), np.CondOf(ret.Results[0])))
+		}
+		if imp, _, _ := CondRelation(cNot(offending), MustRefCond("r >= 48 && r <= 57")); !imp {
+			continue
+		}
+		n := NewNormer(c.P)
+		n.Bind[call] = "found"
+		rc := n.ReachCond(fn, call.Block(), at.Block())
+		want := MustRefCond("found < 0")
+		if full == "strings.ContainsFunc" {
+			want = cNot(&Cond{Kind: CBool, Name: "found"})
+		}
+		if imp, _, _ := CondRelation(rc, want); imp {
+			return true, "no character outside 0-9 found by " + full + " with " + c.P.FuncName(pred)
+		}
+	}
 	for _, ref := range allRefs {
 		rg, ok := ref.(*ssa.Range)
 		if !ok || rg.Parent() != fn {
